@@ -91,6 +91,18 @@ func carriedCells(lit *ssa.Function) map[string]ssa.Instruction {
 	return out
 }
 
+// carriedCellsDetailed is carriedCells keyed by the captured variable itself.
+func carriedCellsDetailed(lit *ssa.Function) map[*ssa.FreeVar]ssa.Instruction {
+	out := map[*ssa.FreeVar]ssa.Instruction{}
+	names := carriedCells(lit)
+	for _, fv := range lit.FreeVars {
+		if ld, ok := names[fv.Name()]; ok {
+			out[fv] = ld
+		}
+	}
+	return out
+}
+
 func checkC06(c *Ctx, r *Report) {
 	r.Explain = "Decides structural necessary conditions of replication convergence (the property as a whole — two databases, a wire protocol and every interleaving — is not decidable from the shape of the code): (R1) conflict resolution is idempotent across compare-and-swap retries: in the write callbacks that run a conflict resolver, no captured variable carries a value written by one attempt into the next attempt (written in the callback and read before it is written), and the incoming revision's version vector — an object captured from outside the callback — never has its current version overwritten in place (resolution builds the merged vector on a Copy); otherwise a retry resolves the conflict against the product of the previous attempt and the peers keep different winners; (R2) on the pulling side a revision's sequence is reported to the checkpointer as processed only on the success edge of the local write, so a revision whose write failed is fetched again after a restart; (R3) on the pushing side a sequence is reported as processed only after the peer's answer to that revision has been received; (R4) after a local-wins resolution (current version kept, history rewritten) both the resolving node and, through the mutation feed, every other node drop the revision-cache entry keyed by that version. Not decided: that both sides pick the same winner, that the resolved revision reaches the other side, push revisions the peer rejects (they are counted and, by design, not retried), tombstone/edit and equal-generation ties, that a caught-up replication transfers nothing, heap-mediated aliasing beyond parameters and captured variables."
 	c06R1(c, r)
